@@ -189,7 +189,9 @@ Record kstatus := {
   s_pre : list bytes;                   (* Umask, State, Tgid, Ngid, Pid, PPid, TracerPid lines (no '\n') *)
   s_ruid : bytes; s_euid : bytes; s_suid : bytes; s_fsuid : bytes;
   s_rgid : bytes; s_egid : bytes; s_sgid : bytes; s_fsgid : bytes;
-  s_mid : list bytes;                   (* FDSize, Groups, NS*, Vm*, ... *)
+  s_fd : list bytes;                    (* FDSize (lines between Gid and Groups) *)
+  s_groups : list bytes;                (* supplementary gids, ANY number (the kernel allows 65536): the file has no size bound *)
+  s_mid : list bytes;                   (* NS*, Kthread, Vm*, ... *)
   s_threads : bytes;
   s_post : list bytes;                  (* SigQ ... Mems_allowed_list *)
   s_ctx : option (bytes * bytes);       (* voluntary / nonvoluntary (absent before 2.6.23) *)
@@ -197,12 +199,16 @@ Record kstatus := {
 
 Definition line (l : bytes) : bytes := l ++ [10].
 Definition klines (ls : list bytes) : bytes := concat (map line ls).
+(* task_state(): "Groups:\t", the gids separated by one blank, then one more blank
+   ("Trailing space shouldn't have been added in the first place") *)
+Definition groups_line (gs : list bytes) : bytes := bs "Groups:" ++ 9 :: join [32] gs ++ [32].
+Definition mid_all (r : kstatus) : list bytes := s_fd r ++ groups_line (s_groups r) :: s_mid r.
 Definition k_status (r : kstatus) : bytes :=
   line (bs "Name:" ++ 9 :: esc_name (s_comm r))
   ++ klines (s_pre r)
   ++ line (bs "Uid:" ++ 9 :: s_ruid r ++ 9 :: s_euid r ++ 9 :: s_suid r ++ 9 :: s_fsuid r)
   ++ line (bs "Gid:" ++ 9 :: s_rgid r ++ 9 :: s_egid r ++ 9 :: s_sgid r ++ 9 :: s_fsgid r)
-  ++ klines (s_mid r)
+  ++ klines (mid_all r)
   ++ line (bs "Threads:" ++ 9 :: s_threads r)
   ++ klines (s_post r)
   ++ match s_ctx r with
@@ -225,7 +231,8 @@ Definition other_ok (l : bytes) : bool :=
   && negb (prefixb (bs "Uid:") l) && negb (prefixb (bs "Gid:") l) && negb (prefixb (bs "Threads:") l)
   && negb (occurs (bs "ctxt_switches:") l).
 Definition wf_kstatus (r : kstatus) : bool :=
-  forallb other_ok (s_pre r) && forallb other_ok (s_mid r) && forallb other_ok (s_post r)
+  forallb other_ok (s_pre r) && (forallb other_ok (s_fd r) && forallb is_dec (s_groups r) && forallb other_ok (s_mid r))
+  && forallb other_ok (s_post r)
   && forallb other_ok (s_tail r)
   && is_dec (s_ruid r) && is_dec (s_euid r) && is_dec (s_suid r) && is_dec (s_fsuid r)
   && is_dec (s_rgid r) && is_dec (s_egid r) && is_dec (s_sgid r) && is_dec (s_fsgid r)
